@@ -248,6 +248,10 @@ pub fn generate(g: &mut Gen, thorough: bool) {
         "init=epsg:25832 proj=utm zone=32",
         "proj=pipeline step proj=pipeline step proj=utm zone=32",
         "proj=pipeline step proj=utm zone=32 step proj=pipeline",
+        // a step list without a header of its own, a pipeline header further on
+        "proj=utm zone=32 step proj=pipeline step proj=utm inv zone=33",
+        "+proj=addone +step +proj=pipeline +ellps=intl +step +proj=cart",
+        "proj=addone step proj=addone step inv proj=pipeline step proj=addone",
         "utm zone=32 | cart",
         "cart ellps=intl",
         "projection=1",
